@@ -63,9 +63,10 @@ def gen(rng: random.Random, n: int) -> List[Dict[str, Any]]:
                 continue
             out.append({"cfg": {"op": op, "constraint": None, "sa": sa, "sb": sb}, "c": {"op": op, "sa": sa, "sb": sb}})
         elif op == "embedding":
-            V, m = rng.choice([1, 2, 3, 6, 10]), rng.choice([1, 2, 3, 7])
-            bt = rng.choice([[V * m], [V, m], [m, V]])
-            out.append({"cfg": {"op": op, "batch": bt, "vocab": V, "dim": rng.choice([1, 3]), "padding_idx": None, "max_norm": None}, "c": {"op": op, "vocab": V, "batch": V * m}})
+            # batch drawn INDEPENDENTLY of the vocabulary (batch < vocab, co-prime sizes included): the count batch / vocab is a rational
+            V = rng.choice([1, 2, 3, 6, 10, 50])
+            bt = rng.choice([[rng.choice([1, 2, 3, 7, 12, 20])], [rng.choice([1, 2, 5]), rng.choice([1, 3, 4])], [V, rng.choice([1, 2, 3])]])
+            out.append({"cfg": {"op": op, "batch": bt, "vocab": V, "dim": rng.choice([1, 3]), "padding_idx": None, "max_norm": None}, "c": {"op": op, "vocab": V, "batch": prod(bt)}})
         elif op == "dropout":
             p = rng.choice([(1, 4), (1, 2), (3, 4), (1, 10), (9, 10)])
             out.append({"cfg": {"op": op, "p": p[0] / p[1], "training": True, "batch": [4], "n": 64}, "c": {"op": op, "p": list(p)}})
@@ -146,7 +147,7 @@ def measured_counts(item: Dict[str, Any]) -> Dict[str, Fraction]:
         w = one(V, cfg["dim"]).requires_grad_(True)
         y = F.embedding(ids.reshape(cfg["batch"]), w)
         (gw,) = torch.autograd.grad(y, [w], torch.ones_like(y))
-        R = {"weight": fr(gw.flatten()[0])}
+        R = {"weight": Fraction(int(round(float(gw[:, 0].sum()))), V)}      # mean number of hits per row of the table
     elif op == "dropout":
         torch.manual_seed(0)
         y = F.dropout(one(4096), cfg["p"], True)
